@@ -1,9 +1,9 @@
 """Not a registered check.  Ties the PATCHED model variant (run_C08_patched =
-/repo + fixes/C08-failed-motion-cancels-operator.patch) to a tree that has
+/repo + fixes/C08-failed-motion-minimal.patch) to a tree that has
 the patch applied:
 
     git -C /repo worktree add --detach /var/tmp/c08-wt HEAD
-    git -C /var/tmp/c08-wt apply /verif/fixes/C08-failed-motion-cancels-operator.patch
+    git -C /var/tmp/c08-wt apply /verif/fixes/C08-failed-motion-minimal.patch
     VERIF_REPO=/var/tmp/c08-wt /venv/bin/python harness/c08_patched.py [seed]
 
 Runs the key-level generators of the C08 check (single commands, sessions, the
